@@ -7,6 +7,7 @@
 -/
 import NiftyVerif.Lemmas.Grid
 import NiftyVerif.Lemmas.GridNest
+import NiftyVerif.Lemmas.GridWeights
 
 namespace NiftyVerif.C31
 open NiftyVerif.Grid
@@ -128,6 +129,12 @@ theorem flat_parent_commutes_serial (g : FlatLevel) (ho : g.o = FlatOrd.serial) 
   rw [ho] at this
   exact this
 
+/-- the serial weights AS WRITTEN IN THE SOURCE (`Gen.weightsSerialGen`, regenerated from `_weights_serial` on every run
+    by translators/t_gridweights.py) are the model's row-major strides, for every non-empty shape: a change of that
+    expression breaks this proof -/
+theorem weights_serial_translated (n : Nat) (t : List Nat) :
+    NiftyVerif.Gen.weightsSerialGen (n :: t) = weightsSerial (n :: t) := weightsSerialGen_eq n t
+
 /-! ### flattened grids, nest (level-interleaved) ordering -/
 
 /-- **flat_roundtrip_nest**: `flatindex2index(index2flatindex(idx)) = idx` for the nest ordering, for every number of
@@ -145,6 +152,25 @@ theorem flat_roundtrip_nest (shape : List Nat) (bases : List (List Nat)) (idx : 
 theorem nest_bound_is_shape (shape : List Nat) (bases : List (List Nat)) (hb : Rows shape.length bases) (ax : Nat)
     (hax : ax < shape.length) (hdvd : colAt ax bases ∣ shape.getD ax 1) :
     colAt ax (weightsNest shape bases) = shape.getD ax 1 := colAt_weightsNest shape bases hb ax hax hdvd
+
+/-- **flat_roundtrip_nest_inv**: `index2flatindex(flatindex2index(f)) = f` for every flat index below the size
+    `prod over all rows`, and `flatindex2index(f)` is a valid index vector of the level -/
+theorem flat_roundtrip_nest_inv (shape : List Nat) (bases : List (List Nat)) (f : Nat)
+    (hr : Rows shape.length (weightsNest shape bases)) (hp : PosRows (weightsNest shape bases))
+    (hf : f < PP (weightsNest shape bases)) :
+    ravelNest shape bases (unravelNest shape bases f) = f ∧ (unravelNest shape bases f).length = shape.length ∧
+    ∀ ax, ax < shape.length → (unravelNest shape bases f).getD ax 0 < colAt ax (weightsNest shape bases) := by
+  unfold unravelNest ravelNest
+  exact nest_roundtrip_inv_rows shape.length (weightsNest shape bases) f hr hp hf
+
+/-- **nest_children_contiguous**: in nest ordering the flat parent is the flat child divided by the number of children
+    (`rows ++ [parent_splits]` are the child's weight rows, `rows` the parent's); hence the children of flat index `p`
+    are exactly `p * prod(splits) + (0 .. prod(splits)-1)` -/
+theorem nest_children_contiguous (ndim : Nat) (rows : List (List Nat)) (splits idx : List Nat) (hidx : idx.length = ndim)
+    (hsl : splits.length = ndim) (hr : Rows ndim rows) (hpos : ∀ w ∈ splits, 0 < w) :
+    ravelNestGo ndim idx (rows ++ [splits]) 0 / splits.prod =
+      ravelNestGo ndim (List.zipWith (· / ·) idx splits) rows 0 :=
+  nest_parent_is_div_rows ndim rows splits idx hidx hsl hr hpos
 
 /-- instance of `flat_parent_commutes` for the nest ordering -/
 theorem flat_parent_commutes_nest (g : FlatLevel) (ho : g.o = FlatOrd.nest) (idx : List Nat)
